@@ -21,10 +21,37 @@ from . import meshgen as G
 PROP = 'C11'
 LEAN_MODULES = ['Femio.Props.C11']
 THEOREMS = []          # filled below (kept next to the explanation of each group)
-PARTIAL = []
-RULE = ''
-ASSUMPTIONS = []
-TRUSTED = []
+PARTIAL = [
+    'C11_polygonC_cof_partial: the polygon centroid kernel is proved to transform with cof(A); its translation invariance '
+    '(needs n·t cancelling against the vertex sum) is checked by the P-tie and the oracle only',
+    'polyhedron centroid kernel: linearity proved (C11_polyC_linear); translation invariance for closed polyhedra is proved '
+    'for the fan kernel only (C11_polyFan_translate), for the centroid kernel it is checked by the oracle',
+    'C11_storage_perm_mixed is a theorem about Cfg.fixed; the current tree implements Cfg.upstream (finding C11-mixed-binding, '
+    'C11_mixed_counterexample_upstream)',
+    'areas: theorems are about the area vectors / radicands (area = sum sqrt(q) / den); sqrt itself, float rounding, the float32 '
+    'accumulators and LAPACK det are runtime, covered by the tolerance of the P-tie',
+    'generate_random_mesh (scipy Delaunay) is exercised by the oracle only',
+]
+RULE = ('(P) per kernel x mode x type N disjoint elements (half: independent random points of the grid {k 2^-16 : |k| <= 2^19}^3, '
+        'half: jittered / exact affine images of the reference cell), arbitrary ids, shuffled storage, evaluated by real femio '
+        'and exactly by the model; (D) conforming meshes (tet, hex, prism, pyr, hex+prism+pyr, tet2, tri, quad, tri+quad, polygon, '
+        'polyhedron, hexprism; affine / jittered; voids; ids dense / sparse / large / huge / prefix-like; storage asc / desc / '
+        'shuffled; type blocks shuffled) through the id lookup, x mode; (oracle) each mesh x api x mode x {relabel, storage, '
+        'rigid, translate, scale, reflect} + modes-agree-on-affine + bricks (type x n x lengths) + generate_random_mesh; '
+        'a case is non-trivial when the exact value is not ~0 (P) / always (metamorphic: the transformed mesh differs); '
+        'distinct = distinct (stream, mesh / element, api, mode, transform)')
+ASSUMPTIONS = [
+    'tolerances relative to max|p|^d (DESIGN 2.3): 1e-9 for float64 kernels, 2e-6 for kernels accumulating in float32 (hex / pyr / '
+    'prism / polyhedron "centroid", polygon centroid kernel); unit normals: 4e-9 * max|p|^2 / |c| (float32 polygon kernel: '
+    '1e-5 * max|p|^2 / |c| + 5e-7); metamorphic comparisons use 4x these; relabel / storage comparisons are exact up to 1e-13',
+    'identity-testing inputs are centred at the origin with |coordinate| <= 8',
+    'polyhedron face data hold node storage indices (as produced by to_polyhedron); reordering node storage re-indexes them',
+    'calculate_element_areas / _normals on a mixed mesh ignore `mode` (sub-calls use the default "centroid"): transcribed in the '
+    'model (shellModeInMesh), not a violation of the property',
+    'the polygon branch of calculate_element_areas is transcribed as written (mode == "centroid" -> fan kernel, other modes -> '
+    'centroid kernel)',
+]
+TRUSTED = ['C11: sqrt of the exact radicands is taken on the Python side (math.sqrt of a Fraction)']
 
 S_GRID = 2 ** 20           # side of the grid the identity-testing points are drawn from
 R_MAX = 8                  # |coordinate| <= 8 (DESIGN 2.3: float32 accumulators of the centroid kernels)
@@ -679,11 +706,51 @@ def mesh_tie(ctx, m, api, mode, mismatch):
 # ------------------------------------------------------------------------------------------ run
 
 THEOREMS += [
-    # kernels: translation, linear maps (det / cofactor), orthogonal invariance of radicands
-    'C11_tet_translate', 'C11_tet_linear', 'C11_hexLin_translate', 'C11_hexLin_linear', 'C11_hexC_translate',
-    'C11_hexC_linear', 'C11_hexGauss_translate', 'C11_hexGauss_linear', 'C11_pyrLin_translate', 'C11_pyrLin_linear',
-    'C11_pyrC_translate', 'C11_pyrC_linear', 'C11_prismLin_translate', 'C11_prismLin_linear', 'C11_prismC_translate',
-    'C11_prismC_linear', 'C11_hexprism_translate', 'C11_hexprism_linear',
+    'C11_tet_translate',
+    'C11_tet_linear',
+    'C11_hexLin_translate',
+    'C11_hexLin_linear',
+    'C11_hexC_translate',
+    'C11_hexC_linear',
+    'C11_hexGauss_translate',
+    'C11_hexGauss_linear',
+    'C11_pyrLin_translate',
+    'C11_pyrLin_linear',
+    'C11_pyrC_translate',
+    'C11_pyrC_linear',
+    'C11_prismLin_translate',
+    'C11_prismLin_linear',
+    'C11_prismC_translate',
+    'C11_prismC_linear',
+    'C11_hexprism_translate',
+    'C11_hexprism_linear',
+    'C11_polyFan_linear',
+    'C11_polyFan_translate',
+    'C11_polyC_linear',
+    'C11_det_scale',
+    'C11_det_orthogonal',
+    'C11_tri_cof',
+    'C11_quadLin_cof',
+    'C11_quadGauss_cof',
+    'C11_quadC_cof',
+    'C11_polygonFan_cof',
+    'C11_polygonC_cof_partial',
+    'C11_radicand_orthogonal',
+    'C11_radicand_scale',
+    'C11_normal_rotates',
+    'C11_shell_rads_rigid',
+    'C11_hex_modes_agree_affine',
+    'C11_prism_modes_agree_affine',
+    'C11_pyr_modes_agree_affine',
+    'C11_hexprism_extruded',
+    'C11_shell_modes_agree_affine',
+    'C11_relabel',
+    'C11_storage_perm',
+    'C11_storage_perm_mixed',
+    'C11_mixed_counterexample_upstream',
+    'C11_brick_count',
+    'C11_brick_positive',
+    'C11_brick_sum',
 ]
 
 
@@ -838,6 +905,7 @@ def replay(ctx, obj):
         res = check_modes_affine(G.from_json(case['mesh']))
     else:
         m = G.from_json(case['mesh'])
+        m['blocks'] = {t: m['blocks'][t] for t in G.ELEMENT_TYPES if t in m['blocks']}
         if 'faces' in case['mesh']:
             m['faces'] = {int(k): v for k, v in case['mesh']['faces'].items()}
         res = check_metamorphic(m, case['transform'], case['api'], case['mode'])
